@@ -8,6 +8,11 @@ def plan(tier):
         progs = tuple(['R' * pairs] * n)
         qs.append(ResQuery('nopark_%dx%s' % (n, 'R' * pairs), progs, harness_defs=['C12_NOPARK=1'], cbmc_defs=['VF_LIVENESS=1'], K=K, timeout=1500,
                            desc={'threads': list(progs), 'claim': 'no reader ever parks (no condition-variable wait) in a writer-free history', 'symbolic': 'the schedule (%d thread choices)' % K}))
+    # (c) mixed programs: whenever a reader parks, some write request is active or waiting (ghost: a writer between issuing lockWrite and the return of unlockWrite)
+    for progs, K in ([(('W', 'R', 'R'), 22)] if tier == 'quick' else [(('W', 'R', 'R'), 22), (('W', 'RR'), 26), (('W', 'W', 'R'), 22), (('WR', 'R'), 26)]):
+        for t0 in range(len(progs)):
+            qs.append(ResQuery('needless_park_%s_first%d' % ('_'.join(progs), t0), progs, harness_defs=['ORACLE_C12=1'], cbmc_defs=['VF_LIVENESS=1'], K=K, prefix=[t0], timeout=1500,
+                               desc={'threads': list(progs), 'first_scheduled_thread': t0, 'claim': 'a reader parks only while a write request is active or waiting', 'symbolic': 'the remaining %d schedule choices' % (K - 1)}))
     for b, K in ([(2, 26)] if tier == 'quick' else [(2, 26), (3, 34)]):
         qs.append(ResQuery('batch_W_then_%dR' % b, tuple(['W'] + ['R'] * b), harness_defs=['C12_BARRIER=1', 'BARRIER=%d' % b], cbmc_defs=['VF_LIVENESS=1'], K=K, timeout=2400,
                            desc={'threads': ['W (holds until %d readers are parked)' % b] + ['R (rendezvous with the other readers inside the section)'] * b,
